@@ -36,8 +36,8 @@ def run(ck):
         if thorough:
             for cfg in ("Engine_c08_thorough.cfg", "Engine_c08_thorough_fixed.cfg", "Engine_c08_thorough3.cfg"):
                 jobs.append(lambda cfg=cfg: ck.tlc_model("Engine", cfg, timeout=3000, workers=6))
-            ck.setcov("constants", "2 shards: epochs 0..3, modes rw/ro/dro, put faults, 1 lock, 2 tombstones; "
-                                   "3 shards: modes rw/ro, 1 lock, 1 tombstone; <=2 broadcasts in flight")
+            ck.setcov("constants", "2 shards: epochs 0..2 (lock expiry), modes rw/ro/dro, 1 lock, 2 tombstones (+ put faults in the repaired world); "
+                                   "3 shards: one shard flips rw/ro, 1 lock, 1 tombstone; <=2 broadcasts in flight, every visiting order")
         else:
             for cfg in ("Engine_c08_quick.cfg", "Engine_c08_quick_fixed.cfg"):
                 jobs.append(lambda cfg=cfg: ck.tlc_model("Engine", cfg, timeout=900, workers=4))
@@ -60,7 +60,7 @@ def run(ck):
                                 dict(scenario="lock-expired", ops=("Put", "Bcast", "GC", "Epoch"), maxepoch=2, inflight=1)] if w["scenario"] == sc]
         for w in wit:
             jobs.append(lambda w=w: eu.witness(ck, **w))
-        plan = [(2, 60, 22)] if not thorough else [(2, 1200, 26), (3, 500, 30), (2, 1200, 26), (3, 500, 30)]
+        plan = [(2, 60, 22)] if not thorough else [(2, 600, 26), (3, 300, 30)]
         for k, (ns, num, glen) in enumerate(plan):
             jobs.append(lambda ns=ns, num=num, glen=glen, k=k: eu.gen_scripts(ck, ns, "c08g", OPS, MODES, glen, num,
                                                                               seed=ck.seed * 100 + ns * 10 + k, witness="H6"))
